@@ -13,7 +13,7 @@ func init() {
 	register(&Property{
 		ID:    "C07",
 		Title: "A query completes only with the reply that matches it",
-		Decided: "C07.1 key completeness: every key given to the transaction dispatcher (Add/Have/Pop/Delete) has both fields set on every path - RemoteAddr from Addr.String() of the peer's address (query destination in Query, datagram source in processPacket) and T from the issued id / the received t; Key has exactly these two fields and the dispatcher's map is keyed by the whole struct; " +
+		Decided: "C07.1 key completeness: every key given to the transaction dispatcher (Add/Have/Pop/Delete) has both fields set on every path - RemoteAddr from Addr.String() of the peer's address (query destination in Query, datagram source in processPacket) and T from the issued id / the received t; Key has exactly these two fields and the dispatcher's map is keyed by the whole struct (a key flattened to the plain concatenation id+address is decided as a violation: not injective); the key local is not overwritten wholesale from anywhere else; " +
 			"C07.2 match → pop → deliver once: Pop only under Have(k)=true for the same key in one critical section; handleResponse has one call site fed by the popped value; onResponse is stored only by Query; the unknown-key branch of processPacket reaches exit without touching transactions or the table; " +
 			"C07.3 registration brackets the exchange in Query: addTransaction dominates the start of the sender, deleteTransaction post-dominates it, both under Server.mu, same key; " +
 			"C07.4 ids are issued atomically from a 64-bit counter: read, increment and encoding of `next` are in one critical section of the issuer's mutex, the counter is uint64 and the id is the uvarint encoding of the value read; every outbound t comes from Issue(); " +
@@ -79,6 +79,15 @@ func (w *World) localKeyFields(at ssa.Instruction, v ssa.Value) (map[string][]*T
 		if _, isCall := whole[0].(*ssa.Call); isCall {
 			return w.localKeyFields(at, whole[0])
 		}
+		// ... or one composite literal assigned as a whole (its temporary is the literal)
+		if al2 := allocOfLoad(whole[0]); al2 != nil && al2 != al {
+			return w.localKeyFields(at, whole[0])
+		}
+	}
+	if len(whole) > 0 {
+		// the local is also overwritten wholesale (by something other than the one helper result
+		// above): what reaches the dispatcher is then not the literal built here
+		return nil, nil, false
 	}
 	vals := map[string][]*Term{}
 	definite := map[string]bool{}
@@ -111,7 +120,43 @@ func (w *World) localKeyFields(at ssa.Instruction, v ssa.Value) (map[string][]*T
 
 func c07r1(w *World, rr *RuleRun) {
 	keyT := w.P.NamedType("transactions", "Key")
-	st := keyT.Underlying().(*types.Struct)
+	st, isStruct := keyT.Underlying().(*types.Struct)
+	if !isStruct {
+		// a flattened key: decidable in one case - the plain concatenation of the two components,
+		// which cannot tell ("ab", "c") from ("a", "bc") and one component comes off the wire
+		if b, isB := keyT.Underlying().(*types.Basic); isB && b.Info()&types.IsString != 0 {
+			found := false
+			eachInstr(w.P.LibFuncs, func(fn *ssa.Function, ins ssa.Instruction) {
+				var v ssa.Value
+				switch x := ins.(type) {
+				case *ssa.ChangeType:
+					if types.Identical(x.Type(), keyT) {
+						v = x.X
+					}
+				case *ssa.Convert:
+					if types.Identical(x.Type(), keyT) {
+						v = x.X
+					}
+				}
+				if v == nil {
+					return
+				}
+				if bo, ok := v.(*ssa.BinOp); ok && bo.Op == token.ADD {
+					_, cx := bo.X.(*ssa.Const)
+					_, cy := bo.Y.(*ssa.Const)
+					if !cx && !cy {
+						found = true
+						rr.At(w, ins, "the transaction key keeps the transaction id and the remote address apart (distinct (id, address) pairs give distinct keys)", false, "key is the plain concatenation "+trunc(w.TS.Of(v).String(), 120)+" of two variable-length strings: a prefix of the id with the rest moved into the address gives the same key")
+					}
+				}
+			})
+			if found {
+				return
+			}
+		}
+		rr.Broken("transactions.Key is neither a struct of (id, address) nor a recognised encoding: %s", keyT.Underlying())
+		return
+	}
 	names := []string{}
 	for i := 0; i < st.NumFields(); i++ {
 		names = append(names, st.Field(i).Name())
